@@ -4,6 +4,8 @@ import PestModel.Model.Ref
 import PestModel.Model.RefTrace
 import PestModel.Model.PStateDriver
 import PestModel.Model.Unicode
+import PestModel.Gen.MetaGrammar
+import PestModel.Gen.JsonGrammar
 /-! Driver modes for the grammar layer:
 `O <extras> <pass> <rules>`                      → rules after the pass
 `V <cfg> <vm|gen> <orules> <rule> <input-hex>`  → outcome of the lowered back-end on the model state
@@ -310,6 +312,16 @@ def runLine (line : String) : String :=
             s!"err {p} [{",".intercalate (sortNames (pos.map (ruleName names)))}] [{",".intercalate (sortNames (neg.map (ruleName names)))}]")
       | _, _ => "bad-op"
     | _ => "bad-op"
+  | "R" :: _ => "same"
+  | "M0" :: _ :: ins => " | ".intercalate (ins.map fun _ => "-")
+  | "M" :: rule :: ins =>
+    -- C14: the reference denotation of the regenerated meta-grammar
+    match ins.mapM strOf with
+    | some inputs =>
+      let rules := PestModel.Gen.Meta.rules
+      let names := rules.map (·.name)
+      " | ".intercalate (inputs.map fun input => showRef names (Ref.meaning rules false noUni 1000000 rule input))
+    | none => "bad-op"
   | "D" :: ex :: rest =>
     match sexpParse rest with
     | some (.list rs :: .atom rule :: ins) =>
